@@ -411,6 +411,8 @@ class FlagCFG:
                 bad.add(a.kwarg.arg)
         plain = {}      # name -> [(nid, value ast)]
         tested = set()
+        walrus_tests = {}
+        self._walrus_tests = walrus_tests
         for n in cfg.nodes.values():
             st = n.ast
             if st is None:
@@ -440,10 +442,18 @@ class FlagCFG:
                     if isinstance(x, ast.NamedExpr):
                         bad.add(x.target.id)
             elif n.kind == "test":
+                top = st
+                while isinstance(top, ast.UnaryOp) and isinstance(top.op, ast.Not):
+                    top = top.operand
                 for x in A.walk(st):
                     if isinstance(x, ast.NamedExpr):
-                        bad.add(x.target.id)
-                ft = _flag_tests(st)
+                        if x is top:
+                            # `if (c := E):` assigns c and tests it: the branch taken tells c's truth value
+                            plain.setdefault(x.target.id, []).append((n.id, x.value))
+                            walrus_tests[n.id] = x.target.id
+                        else:
+                            bad.add(x.target.id)
+                ft = _flag_tests(top.target if isinstance(top, ast.NamedExpr) else st)
                 if ft is not None:
                     tested.add(ft[0])
         local = set(plain) | bad
@@ -480,7 +490,7 @@ class FlagCFG:
                 if isinstance(av, tuple) and av[0] == "copy" and av[1] in want and av[1] not in seen and informative(av[1], seen + (f,)):
                     return True
             return False
-        flags = sorted(f for f in want if informative(f))
+        flags = sorted(f for f in want)       # a flag without an informative assignment still learns from the branches taken
         for f in flags:
             for nid, v in plain[f]:
                 av = absval(v)
@@ -489,22 +499,29 @@ class FlagCFG:
                 self._assign[nid] = (f, av)
         return flags
 
+    @staticmethod
+    def _truth_of(ident):
+        if ident is True or ident is False:
+            return ident
+        if isinstance(ident, tuple) and ident[0] == "tok":
+            return False if ident[1] == "None" else True      # sentinels are plain objects: truthy
+        return None
+
     def _decide(self, val, kind, arg):
-        """truth value of the test on a flag holding abstract value val, or None if unknown"""
+        """truth value of the test on a flag whose abstract value is val = (identity, truth), or None if unknown"""
         if val is None:
             return None
+        ident, truth = val
         if kind == "truth":
-            if val is True or val is False:
-                return val
-            if isinstance(val, tuple) and val[0] == "tok":
-                return False if val[1] == "None" else None
-            return None
+            return truth
         # kind == "is"
-        if isinstance(val, tuple) and val[0] == "tok":
-            return val[1] == arg
-        if val is True or val is False:
+        if isinstance(ident, tuple) and ident[0] == "tok":
+            return ident[1] == arg
+        if ident is True or ident is False:
             return False
-        if val == OTHER:
+        if arg == "None" and truth is True:
+            return False
+        if ident == OTHER:
             return None if arg == "None" else False
         return None
 
@@ -517,25 +534,49 @@ class FlagCFG:
         n = cfg.nodes[nid]
         out = []
         env2 = env
-        if nid in self._assign:
+        if nid in self._assign and n.kind != "test":
             f, av = self._assign[nid]
             i = self.flags.index(f)
             if isinstance(av, tuple) and av[0] == "copy":
-                av = env[self.flags.index(av[1])]
-            env2 = env[:i] + (av,) + env[i + 1:]
+                val = env[self.flags.index(av[1])]
+            else:
+                val = (av, self._truth_of(av))
+            env2 = env[:i] + (val,) + env[i + 1:]
+        ft = None
+        if n.kind == "test":
+            top, flip = n.ast, False
+            while isinstance(top, ast.UnaryOp) and isinstance(top.op, ast.Not):
+                top, flip = top.operand, not flip
+            if isinstance(top, ast.NamedExpr) and self._walrus_tests.get(nid) in self.flags:
+                # the walrus (re)binds the flag to something else; the branch then tells its truth value
+                f = self._walrus_tests[nid]
+                i = self.flags.index(f)
+                env2 = env[:i] + ((OTHER, None),) + env[i + 1:]
+                ft = (f, "truth", None, not flip)
+            else:
+                ft = _flag_tests(n.ast)
+                if ft is not None and ft[0] not in self.flags:
+                    ft = None
         for s in cfg.g.successors(nid):
             kind = cfg.g[nid][s]["kind"]
             sn = cfg.nodes[s]
             e = env2 if kind != "x" else env      # an exception leaves before the assignment took effect
-            if n.kind == "test" and sn.kind in ("T", "F") and sn.of == nid:
-                ft = _flag_tests(n.ast)
-                if ft is not None and ft[0] in self.flags:
-                    holds = self._decide(env[self.flags.index(ft[0])], ft[1], ft[2])
-                    if holds is not None:
-                        if not ft[3]:
-                            holds = not holds
-                        if (sn.kind == "T") != holds:
-                            continue
+            if ft is not None and sn.kind in ("T", "F") and sn.of == nid:
+                i = self.flags.index(ft[0])
+                cur = e[i]
+                holds = self._decide(cur, ft[1], ft[2])
+                taken = (sn.kind == "T") if ft[3] else (sn.kind != "T")      # truth of the positive test on this branch
+                if holds is not None:
+                    if taken != holds:
+                        continue
+                else:
+                    # the branch taken is knowledge about the flag until it is assigned again
+                    ident = cur[0] if cur is not None else None
+                    if ft[1] == "truth":
+                        e = e[:i] + ((ident, taken),) + e[i + 1:]
+                    elif taken:
+                        tok = ("tok", ft[2])
+                        e = e[:i] + ((tok, self._truth_of(tok)),) + e[i + 1:]
             out.append(((s, e), kind))
         self._succ[state] = out
         return out
